@@ -544,7 +544,7 @@ impl<'a> RuleGen<'a> {
                 for _ in 0..n {
                     out.push(match self.r.below(8) {
                         0 if self.c.bounds => El::SyllB,
-                        1 if self.c.structs => El::Struct((0..self.r.range(1, 3)).map(|_| El::Ipa(rand_seg(self.r), None)).collect(), if self.r.chance(1, 3) { Some(Mods::one("stress", FV::Pos)) } else { None }, None),
+                        1 if self.c.structs => El::Struct((0..self.r.range(1, 3)).map(|_| El::Ipa(rand_seg(self.r), if self.r.chance(1, 6) { Some(Mods { feats: vec![], tone: Some(*self.r.pick(&RULE_TONES)) }) } else { None })).collect(), match self.r.below(6) { 0 | 1 => Some(Mods::one("stress", FV::Pos)), 2 => Some(Mods { feats: vec![], tone: Some(*self.r.pick(&RULE_TONES)) }), _ => None }, None),
                         2 if !self.bound_vars.is_empty() => { let (n, _) = *self.r.pick(&self.bound_vars.clone()); El::Var(n, if self.r.chance(1, 3) { Some(Mods::one(if self.r.chance(1, 2) { "long" } else { "stress" }, self.binval())) } else { None }) }
                         3 if self.c.sylls && self.r.chance(1, 3) => El::Syll(None, None),
                         _ => El::Ipa(rand_seg(self.r), if self.r.chance(1, 8) { Some(Mods::one("long", FV::Pos)) } else { None }),
